@@ -251,7 +251,7 @@ def real_groups(tier, seed):
                 while x in avoid: x += 1
                 return x
             calls = []
-            ms = sizes_around(V, rng, 2 if tier == "quick" else 6)
+            ms = sorted(set([V, 2 * V + 1])) if tier == "quick" else sizes_around(V, rng, 6)
             for M in ms:
                 calls.append("rr::flat1<%s,%s,%d,%d>(%du,%d);" % (t, rng.choice(itys), other(M + 1, {M}), M, rng.randrange(1 << 20), cnt))
             for _ in range(1 if tier == "quick" else 4):
@@ -259,17 +259,17 @@ def real_groups(tier, seed):
                 M = rng.choice([d for d in range(1, tot + 1) if tot % d == 0 and d <= 6] or [1]); N = tot // M
                 R = other(max(M, 2), {M, N}); C = other(max(N, 2), {R, M, N})
                 calls.append("rr::ii<%s,%s,%s,%d,%d,%d,%d>(%du,%d);" % (t, rng.choice(itys), rng.choice(itys), R, C, M, N, rng.randrange(1 << 20), cnt))
-            if tier == "thorough" or ti % 2 == 0:
+            if tier == "thorough" or (ti + isas.index(isa)) % 4 == 1:
                 tot = rng.choice([V + 1, 2 * V]); P = rng.choice([d for d in range(1, tot + 1) if tot % d == 0]); Q = tot // P
                 R = rng.randint(2, 5); C = other((tot + R - 1) // R + 1, {R, P, Q})
                 calls.append("rr::flat2<%s,%s,%d,%d,%d,%d>(%du,%d);" % (t, rng.choice(itys), R, C, P, Q, rng.randrange(1 << 20), cnt))
             swap = ti % 2
-            for sw in ((swap,) if tier == "quick" else (0, 1)):
+            for sw in (((swap,) if (ti // 2 + isas.index(isa)) % 2 == 0 else ()) if tier == "quick" else (0, 1)):
                 M = rng.choice(ms)
                 if not sw: R = other(max(M, 2), {M}); C = other(3, {R, M})
                 else: C = other(max(M, 2), {M}); R = other(3, {C, M})
                 calls.append("rr::in_<%s,%s,%s,%d,%d,%d,%d>(%du,%d);" % (t, rng.choice(itys), rng.choice(["int", "long", "short"]), R, C, M, sw, rng.randrange(1 << 20), cnt))
-            for sw in ((1 - swap,) if tier == "quick" else (0, 1)):
+            for sw in (((1 - swap,) if (ti // 2 + isas.index(isa)) % 2 == 1 else ()) if tier == "quick" else (0, 1)):
                 D = rng.randint(3, 8); F = rng.randrange(1, D - 1); S = rng.randint(1, 2); L = rng.choice([-1, rng.randint(F + 1, D)])
                 fsz = ((D if L < 0 else L) - F + S - 1) // S
                 K = max(1, rng.choice([V + 1, 2 * V]) // fsz)
@@ -305,7 +305,15 @@ def run(tier, seed):
              "over the symbolic carrier; exhaustive: every index vector of length <= 3 over parents of <= 5 elements and every pair of per-axis index vectors on small 2-D parents, "
              "all 2^n masks n <= 10 (quick) / 12 (thorough); seeded: lengths around multiples of the vector width for all seven overloads; "
              "non-trivial = every index-view case, and mask cases whose mask is neither all-true nor all-false",
-        nontrivial=nontrivial, per_tu=28)
+        nontrivial=nontrivial, per_tu=40,
+        extra_cov={"oracle_configs": sorted(set(g["key"] for g in real_groups(tier, seed))),
+                   "variants": ["%s %s %s%s" % ("read" if a == 0 else "write", OPS[o], TREES[t], " const-parent" if c else "") for (a, o, t, c) in VARS],
+                   "overloads": ["flat1 (1-D parent, one index tensor)", "flat2 (n-D parent, one index tensor of flat positions)", "ii (index x index)",
+                                 "in (index x integer)", "ni (integer x index)", "if (index x fseq)", "fi (fseq x index)", "mask (boolean-mask view)",
+                                 "ii:into-2d-view / flat3:into-3d-view / mask:into-3d-view (view as source of a range view)"],
+                   "index_types": ["int", "long", "unsigned long (size_t)", "short (integer argument only)"],
+                   "size_classes": "route = overload:action:{vector-only, vector+tail, tail-only, scalar-loop}; every overload x action x class is generated deterministically per group",
+                   "widths": "V = 1 (FASTOR_DONT_VECTORISE), 2, 4 (sse2 / avx2 x 8-byte, sse2 x 4-byte), 8, 16 (avx2 / avx512)"})
 
 def sym_call_of(inp):
     d = symrun.kv(inp)
